@@ -151,3 +151,10 @@ package crdt
 //@   tags C04 C11
 //@ func (DocComposite).deleteWithPrefix -> (err)
 //@   modifies sets, storeFailed, corrupt
+//@
+//@ // ===== C13/C04: the creating commit of a counter field carries no random nonce (reproducible genesis) =
+//@ extern (corekv.ReaderWriter).Has(s, ctx, k) -> (ok, e)
+//@ func (*Counter).Delta -> (d, err)
+//@   ensures err == nil && !res(Has, 1, 0) ==> as(d, *CounterDelta).Nonce == 0
+//@   ensures err == nil ==> as(d, *CounterDelta).FieldName == old(m.fieldName) && sameslice(as(d, *CounterDelta).Data, res(Bytes, 1, 0))
+//@   tags C13 C04
